@@ -271,6 +271,11 @@ func (c *regexpSimplifyChecker) walkCharClassArgs(args []syntax.Expr) {
 			c.out.WriteString(e.Value)
 			continue
 		}
+		if e.Op == syntax.OpEscapeChar && e.Value == `\:` && i > 0 && args[i-1].Value == "[" {
+			// `[[\:alpha\:]]`: unescaped, `[:` would start a POSIX class name.
+			c.out.WriteString(e.Value)
+			continue
+		}
 		c.walk(e)
 	}
 }
